@@ -7,17 +7,20 @@ reported p-value (history entries and overall value).  IID (N = inf): every sequ
 k-point null law, with its probability.  The Lean driver does the same enumeration on the model.
 Oracle: for every alpha equal to an attained value (< 1) and for a grid, P(min p <= alpha) <= alpha.
 """
-import itertools, json, math
+import hashlib, itertools, json, math
 from fractions import Fraction as F
 import numpy as np
 
-from ..core import fr, num_close, impl_call
+from ..core import fr, num_close, impl_call, Rng
 from . import nm as NMG
 
 NAME = "nmrisk"
 RULE = ("null populations of size 3..6 (thorough: ..7) on a k/4*u grid with total <= N*t, including the boundary "
         "total = N*t, x all-zero and two-point populations; IID: 2-3 point null laws with rational weights, horizons "
-        "2..5; all tests x shipped estimators/bets in documented ranges; every distinct arrangement / sequence is run "
+        "2..5; all tests x shipped estimators/bets in documented ranges; additional streams (n/4 more cases, own "
+        "generator): upper bounds below 1 (3/4, 7/8, 5/8, 1/2; half of them the SPRT with an alternative next to u), "
+        "aGRAPA started from initial bets far above 1/t or negative (5/2 .. 10^6, -1/2, -3: aGRAPA clips every bet, its "
+        "initial bet is free); every distinct arrangement / sequence is run "
         "on the real code; non-trivial = some arrangement attains a p-value < 1; distinct = distinct canonical input")
 EXHAUSTIVE = {"quick": False, "thorough": False}
 
@@ -80,48 +83,86 @@ def gen_pop(rng, N, u, t):
     return sorted(pop)
 
 
+LOW_U = [F(3, 4), F(3, 4), F(7, 8), F(5, 8), F(1, 2)]
+
+
+def gen_one(rng, tier, us=None, test=None, bet=None, lam=None):
+    """one case (None when the drawn IID law cannot be made a null law); `us`: the upper bounds to draw from"""
+    test = test or rng.choice(NMG.TESTS + ["alpha_mart", "betting_mart"])
+    estim = rng.choice(NMG.ESTIMS) if test == "alpha_mart" else None
+    bet = (bet or rng.choice(NMG.BETS)) if test == "betting_mart" else None
+    u = rng.choice(us or [F(1), F(1), F(3, 2), F(2), F(5, 4)])
+    if estim == "optimal_comparison":
+        u = rng.choice([F(5, 4), F(3, 2), F(2), F(17, 16)])
+    t = rng.choice([F(1, 2), F(1, 2), F(1, 4), F(3, 4)])
+    if t >= u:
+        t = u / 2
+    kw = NMG.gen_kw(rng, test, estim, bet, u, t)
+    if lam is not None:
+        kw["lam"] = lam
+    iid = test in ("kaplan_markov", "kaplan_wald") or (test != "kaplan_kolmogorov" and rng.chance(0.25))
+    init = {"test": test, "estim": estim, "bet": bet, "u": S(u), "N": None, "t": S(t), "ro": True,
+            "kw": {a: S(b) for a, b in kw.items()}, "u_now": None}
+    if iid:
+        # k-point law with mean <= t
+        nv = rng.choice([2, 2, 3])
+        vals = sorted(set(rng.choice([u * F(i, 4) for i in range(5)]) for _ in range(nv)))
+        if len(vals) < 2:
+            vals = [F(0), u]
+        w = [F(rng.randint(1, 4)) for _ in vals]
+        tot = sum(w)
+        w = [x / tot for x in w]
+        # shift weight to the smallest value until the mean is <= t
+        tries = 0
+        while sum(v * p for v, p in zip(vals, w)) > t and tries < 50:
+            j = max(range(len(vals)), key=lambda i: vals[i] if w[i] > 0 else -1)
+            d = min(w[j], F(1, 8))
+            w[j] -= d
+            w[0] += d
+            tries += 1
+        if sum(v * p for v, p in zip(vals, w)) > t:
+            return None
+        vw = [(v, p) for v, p in zip(vals, w) if p > 0]
+        horizon = rng.choice([2, 3, 4] if tier == "quick" else [2, 3, 4, 5])
+        return {"kind": "iid", "init": init, "vals": [S(v) for v, _ in vw], "weights": [S(p) for _, p in vw], "n": horizon}
+    N = rng.choice([3, 4, 5, 6] if tier == "quick" else [3, 4, 5, 6, 7])
+    init["N"] = N
+    return {"kind": "finite", "init": init, "pop": [S(v) for v in gen_pop(rng, N, u, t)]}
+
+
 def gen(rng, n, tier):
+    # a second generator for the additional streams below, derived from (not drawn from) the run's generator: the
+    # main stream of cases is exactly what it was before these streams existed
+    sub = Rng(int(hashlib.sha1(repr(rng.getstate()).encode()).hexdigest()[:15], 16))
     k = 0
     while k < n:
-        test = rng.choice(NMG.TESTS + ["alpha_mart", "betting_mart"])
-        estim = rng.choice(NMG.ESTIMS) if test == "alpha_mart" else None
-        bet = rng.choice(NMG.BETS) if test == "betting_mart" else None
-        u = rng.choice([F(1), F(1), F(3, 2), F(2), F(5, 4)])
-        if estim == "optimal_comparison":
-            u = rng.choice([F(5, 4), F(3, 2), F(2), F(17, 16)])
-        t = rng.choice([F(1, 2), F(1, 2), F(1, 4), F(3, 4)])
-        if t >= u:
-            t = u / 2
-        kw = NMG.gen_kw(rng, test, estim, bet, u, t)
-        iid = test in ("kaplan_markov", "kaplan_wald") or (test != "kaplan_kolmogorov" and rng.chance(0.25))
-        init = {"test": test, "estim": estim, "bet": bet, "u": S(u), "N": None, "t": S(t), "ro": True,
-                "kw": {a: S(b) for a, b in kw.items()}, "u_now": None}
-        if iid:
-            # k-point law with mean <= t
-            nv = rng.choice([2, 2, 3])
-            vals = sorted(set(rng.choice([u * F(i, 4) for i in range(5)]) for _ in range(nv)))
-            if len(vals) < 2:
-                vals = [F(0), u]
-            w = [F(rng.randint(1, 4)) for _ in vals]
-            tot = sum(w)
-            w = [x / tot for x in w]
-            # shift weight to the smallest value until the mean is <= t
-            tries = 0
-            while sum(v * p for v, p in zip(vals, w)) > t and tries < 50:
-                j = max(range(len(vals)), key=lambda i: vals[i] if w[i] > 0 else -1)
-                d = min(w[j], F(1, 8))
-                w[j] -= d
-                w[0] += d
-                tries += 1
-            if sum(v * p for v, p in zip(vals, w)) > t:
-                continue
-            vw = [(v, p) for v, p in zip(vals, w) if p > 0]
-            horizon = rng.choice([2, 3, 4] if tier == "quick" else [2, 3, 4, 5])
-            yield {"kind": "iid", "init": init, "vals": [S(v) for v, _ in vw], "weights": [S(p) for _, p in vw], "n": horizon}
+        c = gen_one(rng, tier)
+        if c is None:
+            continue
+        yield c
+        k += 1
+    # additional streams (about n/4 cases):
+    #  * upper bounds BELOW 1 (a super-majority assorter has u = 1/(2 share) < 1; 3/4 for share 2/3): every
+    #    truncation "at u" is then different from a truncation at 1; half of them the SPRT with an alternative next
+    #    to u, on populations with several zeros (the alternative mean of the rest climbs past u)
+    #  * aGRAPA started from an initial bet far above 1/t (or negative): the documented rule clips EVERY bet,
+    #    the first included, to [0, c/mu_j]; that is what keeps the first factor non-negative
+    k = 0
+    while k < max(2, n // 4):
+        r = sub.random()
+        if r < 0.3:
+            c = gen_one(sub, tier, us=LOW_U)
+        elif r < 0.6:
+            c = gen_one(sub, tier, us=LOW_U, test="wald_sprt")
+            if c is not None and sub.chance(0.7):
+                u_, t_ = F(c["init"]["u"]), F(c["init"]["t"])
+                c["init"]["kw"]["eta"] = S(sub.choice([u_ * F(15, 16), u_ * F(31, 32), u_, t_ + (u_ - t_) * F(7, 8)]))
         else:
-            N = rng.choice([3, 4, 5, 6] if tier == "quick" else [3, 4, 5, 6, 7])
-            init["N"] = N
-            yield {"kind": "finite", "init": init, "pop": [S(v) for v in gen_pop(rng, N, u, t)]}
+            c = gen_one(sub, tier, us=(LOW_U if sub.chance(0.3) else None), test="betting_mart", bet="agrapa",
+                        lam=sub.choice(NMG.WILD_LAM))
+        if c is None:
+            continue
+        yield c
         k += 1
 
 
@@ -262,8 +303,8 @@ def documented(case):
         return False
     if "eta" in kw and not ((0 if test == "wald_sprt" else t) < kw["eta"] <= u):
         return False
-    if "lam" in kw and not (0 <= kw["lam"] <= 1 / u):
-        return False
+    if "lam" in kw and init.get("bet") != "agrapa" and not (0 <= kw["lam"] <= 1 / u):
+        return False      # a FIXED bet must lie in [0, 1/u]; aGRAPA's initial bet is free (it clips every bet to [0, c/mu_j])
     if "g" in kw and not (0 <= kw["g"] < 1):
         return False
     if test in ("kaplan_markov", "kaplan_wald") and init["N"] is not None:
@@ -310,7 +351,9 @@ def oracle_c01(case, ir):
             continue
         pr = sum(p for m, p in zip(mins, probs) if m <= a)
         if float(pr) > max(a, 0.0) * (1 + 1e-9) + 1e-15:
-            return {"what": f"exact risk {float(pr):.6g} (= {pr}) exceeds alpha = {a!r}: the probability, over the "
+            note = "" if a > 0 else (f" [a reported p-value <= 0 is <= EVERY alpha in (0,1): e.g. alpha = {float(pr) / 2:.6g} "
+                                     f"is exceeded by the risk {float(pr):.6g}]")
+            return {"what": f"exact risk {float(pr):.6g} (= {pr}) exceeds alpha = {a!r}{note}: the probability, over the "
                             f"{'orderings of the population' if case['kind'] == 'finite' else 'IID sequences'}, that "
                             f"some reported p-value is <= alpha", "alpha": a, "risk": str(pr)}
     return None
